@@ -111,3 +111,11 @@ func verifLemmaRtpHeaderRoundTrip(h RtpHeader, buf []byte) (RtpHeader, error) {
 //@   ensures [C07.ts.ms] clockRate > 0 ==> result * int64(clockRate) <= int64(timestamp) * 1000 && int64(timestamp) * 1000 < (result + 1) * int64(clockRate)
 //@   ensures [C07.ts.ms.nonneg] result >= 0
 //@ end
+
+// C13: STAP-A / AP aggregation packets. Both traversals of the aggregation units end exactly at the end of the
+// payload (the first one has refused every packet whose unit sizes do not add up), never beyond it.
+//@ func (*RtpUnpackerAvcHevc).TryUnpackOne
+//@   props C13
+//@   loop 1 condexit [C13.stap.exact.size] i == len(buf)
+//@   loop 2 condexit [C13.stap.exact.copy] i == len(buf)
+//@ end
